@@ -16,7 +16,7 @@ func init() {
 		Explanation: "The four inequalities of the property are inductive numeric invariants and are not decided. Decided is that the limits exist on every path to a ReplicaSet size write of the built-in advanced deployment controller: (R17.1) ReplicaSet.spec.replicas is written only by scaleReplicaSet and by new-ReplicaSet creation (whole-package store enumeration); " +
 			"(R17.2) required influence: the new ReplicaSet's target depends on NewRSNewReplicas, whose scale-up results depend on NewRSReplicasLimit(partition) and MaxSurge; old ReplicaSets' scale-down budget depends on ScaleDownLimitForOld (partition reserve) and on MaxUnavailable through minAvailable and the available-pod count; when several old ReplicaSets share one budget the per-ReplicaSet amount depends on the running total; new-ReplicaSet creation size depends on NewRSNewReplicas and NewRSReplicasLowerBound; " +
 			"(R17.3) bounded-by form: on the scale-up branch NewRSNewReplicas returns the current size or min(_, partition limit); scale-down is unreachable when available pods <= minAvailable, and when the partition reserve is exhausted (limit <= 0) only scale-up of old ReplicaSets is reachable; (R17.4) the ReplicaSet count helpers read the status field their name promises (available / ready / spec / actual).",
-		NotDecided: "the invariants themselves (new <= partition limit, old >= reserve, total <= replicas+maxSurge, available >= replicas-maxUnavailable), scaling events, convergence to the new revision.",
+		NotDecided:  "the invariants themselves (new <= partition limit, old >= reserve, total <= replicas+maxSurge, available >= replicas-maxUnavailable), scaling events, convergence to the new revision.",
 		Assumptions: []string{"influence is the intraprocedural backward slice (data dependence through locals and phis)"},
 	})
 }
